@@ -234,7 +234,7 @@ def far_dates_files():
 def far_seek():
     L = ['DECLARE v : INTEGER', 'OPENFILE "f.dat" FOR RANDOM']
     for k in (1, 2, 3):
-        L += ['SEEK "f.dat", %d' % k, 'PUTRECORD "f.dat", %d' % (k * 11)]
+        L += ['v <- %d' % (k * 11), 'SEEK "f.dat", %d' % k, 'PUTRECORD "f.dat", v']
     probes = []
     for base in (2 ** 32, 2 ** 31, 2 ** 33, 2 ** 40, 2 ** 63 - 8, 2 ** 16, 2 ** 8):
         for k in (-1, 0, 1, 2, 3, 4, 5):
@@ -242,7 +242,7 @@ def far_seek():
     for a in probes:
         lit = str(a) if a >= 0 else '0 - %d' % (-a)
         L += ['SEEK "f.dat", %s' % lit, 'GETRECORD "f.dat", v', 'OUTPUT v', 'v <- 0 - 1']
-    L += ['SEEK "f.dat", 4294967297', 'PUTRECORD "f.dat", 99', 'SEEK "f.dat", 1', 'GETRECORD "f.dat", v', 'OUTPUT v', 'CLOSEFILE "f.dat"',
+    L += ['v <- 99', 'SEEK "f.dat", 4294967297', 'PUTRECORD "f.dat", v', 'SEEK "f.dat", 1', 'GETRECORD "f.dat", v', 'OUTPUT v', 'CLOSEFILE "f.dat"',
           'OPENFILE "f.dat" FOR RANDOM', 'SEEK "f.dat", 4', 'SEEK "f.dat", 5']
     return [Case(mode='repl', stdin=J(L), limits=dict(steps=40000), meta=dict(gen='far-seek', sample=False))]
 
@@ -253,7 +253,8 @@ def pedantic_tail_with_files():
         for closed in (False, True):
             L = ['OPENFILE "seq.txt" FOR WRITE', 'WRITEFILE "seq.txt", "one"', 'WRITEFILE "seq.txt", "two"',
                  'OPENFILE "log.txt" FOR APPEND', 'WRITEFILE "log.txt", "appended"',
-                 'OPENFILE "rec.dat" FOR RANDOM', 'SEEK "rec.dat", 1', 'PUTRECORD "rec.dat", 7', 'SEEK "rec.dat", 2', 'PUTRECORD "rec.dat", "x"']
+                 'DECLARE seven : INTEGER', 'seven <- 7', 'DECLARE ex : STRING', 'ex <- "x"',
+                 'OPENFILE "rec.dat" FOR RANDOM', 'SEEK "rec.dat", 1', 'PUTRECORD "rec.dat", seven', 'SEEK "rec.dat", 2', 'PUTRECORD "rec.dat", ex']
             if closed:
                 L += ['CLOSEFILE "seq.txt"', 'CLOSEFILE "log.txt"', 'CLOSEFILE "rec.dat"']
             defs = [l for l in tail if l.startswith(('PROCEDURE', '  ', 'ENDPROCEDURE'))]
